@@ -2011,7 +2011,7 @@ func streamHist(cfg *Config, res *Result) error {
 	}
 	umask := []int{0o022, 0, 0o027}[int(cfg.Seed)%3]
 	syscall.Umask(umask)
-	res.Rule = "seeded random histories through a real BackupFS over real directories and through the Lean model: initial trees as in the osmodel stream; 1-8 operations per transaction over all mutators (open-flag combinations, unclean spellings; relative names and arbitrary link topologies in the wild quarter), read-only operations interleaved, every transaction ended by Rollback (sometimes twice); compared per step: result, data, mutating primitive trace, base tree, backup tree, tracked map; non-trivial = at least one operation succeeded in modifying the base; distinct by (tree, steps)"
+	res.Rule = "seeded random histories through a real BackupFS over real directories and through the Lean model: initial trees as in the osmodel stream; 1-8 operations per transaction over all mutators (open-flag combinations, unclean spellings; relative names and arbitrary link topologies in the wild quarter), read-only operations interleaved, every transaction ended by Rollback (sometimes twice); per-property variants: several transactions and a freshly constructed twin (C07), persist/reload by JSON or Map/SetMap with the persisted text compared with the model's (C12), ForceBackup incl. on former directory trees (C17), external writes and directory-to-symlink swaps by another actor with the footprint oracle (C13), nested NewWithFS layering with directory links towards the location and probes through them (C04), twin tree driven directly (C03), flat link topologies with names through the links, directory/symlink swaps by the transaction itself, metadata histories; a second Rollback by a new instance on copies of both trees taken at two primitive calls of every Rollback (C02); compared per step: result, data, mutating primitive trace, base tree, backup tree, tracked map; non-trivial = at least one operation succeeded in modifying the base; distinct by (tree, steps)"
 	b := &Batch{}
 	// corpus first
 	for _, raw := range corpusCases("hist") {
